@@ -124,6 +124,7 @@ Section Leaves.
       eapply head_spec_weaken; [|apply IHe1; assumption]. right. cbn. lia.
     - (* EFun *) destruct (bool_of_name nm (fn_name nm f)); apply head_spec_any; reflexivity.
     - (* ENamedFun *) apply head_spec_any; reflexivity.
+    - (* EArray *) apply head_spec_any; reflexivity.
     - apply head_spec_any; reflexivity.
     - apply head_spec_any; reflexivity.
     - apply head_spec_any; reflexivity.
